@@ -78,7 +78,7 @@ fn certainly_ill_formed(line: &str) -> Option<&'static str> {
 
 pub fn run(tier: Tier) -> i32 {
     let rep = Report::new("C17", tier, "model_checking");
-    rep.set_rule("SCOPE: (forms) utterances (incl. labels whose first phoneme is named like a number (2, -1, 1e3, .5, +0) or starts with a byte order mark or an exotic space; one utterance of 300 lines; inputs of 1023..65537 lines (thorough: 300001) compared as parsed label lists and time stamps, with blank lines and with one malformed line; sentence ends on a voice whose trees ask about the undefined-phoneme marker) x {&[&str], &[String], Vec<String>, &[&str; N], Vec<Label>} x a blank line inserted at every position x time stamps present/absent/zero-length/all zero/backwards/astronomical with alignment off (utterances incl. one with sil and pau labels), and time-stamped lines with blank lines at every position with alignment on, waveforms compared bit-exactly; (faults) 5 base lines (plain label, label with times, label with fractional times, and two already ill-formed ones: one time stamp deleted, /K: section deleted): every single-character deletion, duplication, and substitution/insertion from a 39-symbol alphabet (incl. line breaks, byte order mark, no-break / zero-width / ideographic space, NEL, line separator) at every position, every prefix truncation, every token deletion/duplication, 14 special time tokens; thorough: all pairs of substitutions on a 40-character window; oracle: never a panic, Err required for certainly ill-formed lines (two tokens, time rejected by f64::from_str, missing phoneme separator or /A:../K: marker); distinct = distinct corrupted line; non-trivial = line differs from the base");
+    rep.set_rule("SCOPE: (forms) utterances (incl. labels whose first phoneme is named like a number (2, -1, 1e3, .5, +0) or starts with a byte order mark or an exotic space; one utterance of 300 lines; inputs of 1023..65537 lines (thorough: 300001) compared as parsed label lists and time stamps, with blank lines and with one malformed line; sentence ends on a voice whose trees ask about the undefined-phoneme marker) x {&[&str], &[String], Vec<String>, &[&str; N], Vec<Label>} x a blank line inserted at every position x time stamps present/absent/zero-length/all zero/backwards/astronomical with alignment off (utterances incl. one with sil and pau labels), and time-stamped lines with blank lines at every position with alignment on, waveforms compared bit-exactly; string forms against already parsed labels also under alignment on with speed 1.4 / 0.7 and under speed 2.5 with frame period 41; (faults) 5 base lines (plain label, label with times, label with fractional times, and two already ill-formed ones: one time stamp deleted, /K: section deleted): every single-character deletion, duplication, and substitution/insertion from a 39-symbol alphabet (incl. line breaks, byte order mark, no-break / zero-width / ideographic space, NEL, line separator) at every position, every prefix truncation, every token deletion/duplication, 14 special time tokens; thorough: all pairs of substitutions on a 40-character window; oracle: never a panic, Err required for certainly ill-formed lines (two tokens, time rejected by f64::from_str, missing phoneme separator or /A:../K: marker); distinct = distinct corrupted line; non-trivial = line differs from the base");
     rep.assume("single faults (pairs on one window in the thorough tier); lines that are not certainly ill-formed may be accepted or rejected");
     let corpus = labels::corpus();
     let tiny = engine_from_bytes(&GenCfg { nstate: 2, ..GenCfg::default() }.bytes()).expect("generated voice");
@@ -197,6 +197,45 @@ pub fn run(tier: Tier) -> i32 {
             }
         }
     }
+    // the same agreement under conditions that steer the duration path: alignment on (with lines that carry no times, some
+    // times, all times) together with a speed other than 1, a pitch shift, another frame period - what the settings mean is
+    // C08/C09's business, here every form must simply mean the same
+    {
+        let conds: Vec<(&str, Vec<crate::props::c20::Act>)> = vec![
+            ("alignment on, speed 1.4", vec![crate::props::c20::Act::Align(true), crate::props::c20::Act::Speed(1.4)]),
+            ("alignment on, speed 0.7, +3 half tones", vec![crate::props::c20::Act::Align(true), crate::props::c20::Act::Speed(0.7), crate::props::c20::Act::HalfTone(3.0)]),
+            ("alignment off, speed 2.5, frame period 41", vec![crate::props::c20::Act::Speed(2.5), crate::props::c20::Act::Fperiod(41)]),
+        ];
+        for (ename, e0) in [("G", &tiny), ("V0", &v0)] {
+            for (cname, acts) in &conds {
+                let e = with_cond(e0, acts);
+                for u in [corpus[40..43].to_vec(), vec![corpus[41].clone()], corpus[100..105].to_vec()] {
+                    if ename == "V0" && u.len() > 3 {
+                        continue;
+                    }
+                    let parsed: Vec<jlabel::Label> = u.iter().map(|l| labels::parse(l)).collect();
+                    let Ok(Ok(base)) = catch(|| e.synthesize(parsed.clone())) else {
+                        rep.violation("forms-error", format!("Vec<Label> form fails under {}", cname), json!({"engine": ename, "condition": cname, "lines": u}));
+                        continue;
+                    };
+                    let mut blank = u.clone();
+                    blank.insert(1.min(blank.len()), String::new());
+                    for (vname, lines) in [("plain", &u), ("blank line", &blank)] {
+                        for (fname, r) in forms(&e, lines) {
+                            rep.eval(1);
+                            rep.cmp(1);
+                            form_cases.fetch_add(1, Ordering::Relaxed);
+                            match r {
+                                Ok(w) if bits_eq(&w, &base) => {}
+                                Ok(w) => rep.violation("forms-differ-condition", format!("under {}: {} ({}) gives {} samples, the already parsed labels give {} on {}", cname, fname, vname, w.len(), base.len(), ename), json!({"engine": ename, "condition": cname, "form": fname, "variant": vname, "lines": lines})),
+                                Err(er) => rep.violation(if er.starts_with("panic") { "forms-panic" } else { "forms-error" }, format!("under {}: {} ({}) fails: {}", cname, fname, vname, er), json!({"engine": ename, "condition": cname, "form": fname, "lines": lines})),
+                            }
+                        }
+                    }
+                }
+            }
+        }
+    }
     // ---------- long inputs, at the level of the parsed label list ----------
     // far more lines than any synthesized case (counts around 2^11, 2^12, 2^13, 2^16): every string form must give the same
     // labels, in order, and the same time stamps as the already-parsed form; a malformed last line must still be an error
@@ -259,6 +298,7 @@ pub fn run(tier: Tier) -> i32 {
         rep.note("long_inputs", json!({"line_counts": counts, "cases": long_cases.load(Ordering::Relaxed)}));
     }
     // ---------- faults ----------
+    unwritable_stderr_part(&rep, &["label-error"]);
     let alphabet: Vec<String> = vec![" ", "\t", "\0", "/", ":", "+", "-", "=", "^", "_", "!", "#", "@", "|", "&", "%", "0", "9", "x", "a", "A", "Z", ".", "e", "E", "*", "?", "\"", "\u{3042}", "\u{7f}", "\n", "\r\n", "\r", "\u{feff}", "\u{a0}", "\u{200b}", "\u{85}", "\u{2028}", "\u{3000}"].into_iter().map(String::from).collect();
     // three well-formed bases, and two that are already ill-formed (every fault on them is a double fault of the
     // original line): a two-token line (one time stamp deleted) and a timed line whose label lost its /K: section
